@@ -1,5 +1,6 @@
 import ScVerif.Base.Line
 import ScVerif.C11.Lockset
+import ScVerif.C11.Slice
 /-! Driver handler for C11: evaluates the executable lockset definitions on rows sent by the harness.
 
 Row encoding (no spaces): `field,kind,phase,role,held,rel,acq` with `kind ∈ {R,W}`, `phase ∈ {init,live}`,
@@ -9,6 +10,7 @@ Row encoding (no spaces): `field,kind,phase,role,held,rel,acq` with `kind ∈ {R
 * `racefree <row> <row> …`  → `true` | `false i:j,i:j,…` (unordered conflicting pairs, i ≤ j)
 * `grouped <row> <row> …`   → `grouped=<0|1> sorted=<0|1> racefree=<0|1>` (the kernel's decision `raceFreeG`)
 * `frozen <field> <row> …`  → `<0|1>` (`frozenInB`: no live write row of that field)
+* `append <len> <cap> <n>`  → `inplace=<0|1> writes=<cell;cell;…|->` (`appendInPlace`, `appendWrites` on a slice of array 0)
 -/
 namespace ScVerif.C11
 open ScVerif.Line
@@ -60,6 +62,15 @@ def handle (toks : List String) : String :=
     match parseNat? f, rows.mapM parseRow? with
     | some f, some tbl => bit (frozenInB tbl f)
     | _, _ => "!bad-op"
+  | ["append", l, c, n] =>
+    match parseNat? l, parseNat? c, parseNat? n with
+    | some l, some c, some n =>
+      if l ≤ c then
+        let s : Slice := ⟨0, l, c⟩
+        let ws := (appendWrites s n).map fun p => toString p.2
+        s!"inplace={bit (appendInPlace s n)} writes={if ws.isEmpty then "-" else ";".intercalate ws}"
+      else "!bad-op"
+    | _, _, _ => "!bad-op"
   | _ => "!bad-op"
 
 end ScVerif.C11
